@@ -72,15 +72,18 @@ pub struct SolverCache<D: DependencyProvider> {
 
     /// A mapping of `VersionSetId` to the candidates that match that set.
     version_set_candidates: FrozenMap<VersionSetId, Vec<SolvableId>, ahash::RandomState>,
+    version_set_candidates_in_flight: RefCell<HashMap<VersionSetId, Rc<Event>>>,
 
     /// A mapping of `VersionSetId` to the candidates that do not match that set
     /// (only candidates of the package indicated by the version set are
     /// included).
     version_set_inverse_candidates: FrozenMap<VersionSetId, Vec<SolvableId>, ahash::RandomState>,
+    version_set_inverse_candidates_in_flight: RefCell<HashMap<VersionSetId, Rc<Event>>>,
 
     /// A mapping of [`Requirement`] to a sorted list of candidates that fulfill
     /// that requirement.
     requirement_to_sorted_candidates: FrozenMap<Requirement, Vec<SolvableId>, ahash::RandomState>,
+    version_set_sorted_candidates_in_flight: RefCell<HashMap<VersionSetId, Rc<Event>>>,
 
     /// A mapping from a solvable to a list of dependencies
     solvable_dependencies: Arena<DependenciesId, Dependencies>,
@@ -103,8 +106,11 @@ impl<D: DependencyProvider> SolverCache<D> {
             package_name_to_candidates: Default::default(),
             package_name_to_candidates_in_flight: Default::default(),
             version_set_candidates: Default::default(),
+            version_set_candidates_in_flight: Default::default(),
             version_set_inverse_candidates: Default::default(),
+            version_set_inverse_candidates_in_flight: Default::default(),
             requirement_to_sorted_candidates: Default::default(),
+            version_set_sorted_candidates_in_flight: Default::default(),
             solvable_dependencies: Default::default(),
             solvable_to_dependencies: Default::default(),
             solvable_to_dependencies_in_flight: Default::default(),
@@ -232,6 +238,34 @@ impl<D: DependencyProvider> SolverCache<D> {
         match self.version_set_candidates.get(&version_set_id) {
             Some(candidates) => Ok(candidates),
             None => {
+                // If the same query is already being answered (e.g. for another
+                // requirement that uses this version set, or for the provider itself
+                // from inside `sort_candidates`), wait for that answer instead of
+                // consulting the provider a second time.
+                let in_flight_request = self
+                    .version_set_candidates_in_flight
+                    .borrow()
+                    .get(&version_set_id)
+                    .cloned();
+                if let Some(in_flight) = in_flight_request {
+                    in_flight.listen().await;
+                    return match self.version_set_candidates.get(&version_set_id) {
+                        Some(candidates) => Ok(candidates),
+                        // The query we were waiting for was abandoned before it
+                        // produced a result, start over.
+                        None => {
+                            Box::pin(self.get_or_cache_matching_candidates(version_set_id)).await
+                        }
+                    };
+                }
+                self.version_set_candidates_in_flight
+                    .borrow_mut()
+                    .insert(version_set_id, Rc::new(Event::new()));
+                let _in_flight_guard = InFlightGuard {
+                    in_flight: &self.version_set_candidates_in_flight,
+                    key: version_set_id,
+                };
+
                 let package_name_id = self.provider.version_set_name(version_set_id);
 
                 tracing::trace!(
@@ -270,6 +304,31 @@ impl<D: DependencyProvider> SolverCache<D> {
         match self.version_set_inverse_candidates.get(&version_set_id) {
             Some(candidates) => Ok(candidates),
             None => {
+                // Share the answer of a query for the same version set that is
+                // already in flight.
+                let in_flight_request = self
+                    .version_set_inverse_candidates_in_flight
+                    .borrow()
+                    .get(&version_set_id)
+                    .cloned();
+                if let Some(in_flight) = in_flight_request {
+                    in_flight.listen().await;
+                    return match self.version_set_inverse_candidates.get(&version_set_id) {
+                        Some(candidates) => Ok(candidates),
+                        None => {
+                            Box::pin(self.get_or_cache_non_matching_candidates(version_set_id))
+                                .await
+                        }
+                    };
+                }
+                self.version_set_inverse_candidates_in_flight
+                    .borrow_mut()
+                    .insert(version_set_id, Rc::new(Event::new()));
+                let _in_flight_guard = InFlightGuard {
+                    in_flight: &self.version_set_inverse_candidates_in_flight,
+                    key: version_set_id,
+                };
+
                 let package_name_id = self.provider.version_set_name(version_set_id);
 
                 tracing::trace!(
@@ -355,6 +414,31 @@ impl<D: DependencyProvider> SolverCache<D> {
         if let Some(candidates) = self.requirement_to_sorted_candidates.get(&requirement) {
             return Ok(candidates);
         }
+
+        // Share the answer of a query for the same version set that is already in
+        // flight, so that the provider sorts the candidates of a version set once.
+        let in_flight_request = self
+            .version_set_sorted_candidates_in_flight
+            .borrow()
+            .get(&version_set_id)
+            .cloned();
+        if let Some(in_flight) = in_flight_request {
+            in_flight.listen().await;
+            return match self.requirement_to_sorted_candidates.get(&requirement) {
+                Some(candidates) => Ok(candidates),
+                None => {
+                    Box::pin(self.get_or_cache_sorted_candidates_for_version_set(version_set_id))
+                        .await
+                }
+            };
+        }
+        self.version_set_sorted_candidates_in_flight
+            .borrow_mut()
+            .insert(version_set_id, Rc::new(Event::new()));
+        let _in_flight_guard = InFlightGuard {
+            in_flight: &self.version_set_sorted_candidates_in_flight,
+            key: version_set_id,
+        };
 
         let package_name_id = self.provider.version_set_name(version_set_id);
         tracing::trace!(
